@@ -10,13 +10,15 @@ EXTRAS.setdefault("exc_fields", {})["FilterSyntaxError"] = {"filter": "str", "of
 _PRE = ["0 <= offset", "0 <= length", "offset + length <= len(view)"]
 _SPAN = ["offset <= exc.offset", "0 <= exc.length", "exc.offset + exc.length <= offset + length"]
 _SCAN = dict(params={"view": "memoryview"}, raises={"FilterSyntaxError": True}, on_raise={"FilterSyntaxError": _SPAN}, modifies=[],
-             result="t.Tuple[sym:LDAPFilter, int]", ensures=["0 <= result[1]", "result[1] <= length"], decreases="length")
+             result="t.Tuple[sym:LDAPFilter, int]", ensures=["1 <= result[1]", "result[1] <= length"], decreases="length")
 
 contract("_filter:_unpack_filter", requires=_PRE, **_SCAN,
          loops={0: dict(invariant=["len(current_view) == length", "0 <= read", "read <= length",
-                                   "implies(parens_start is not None, 0 <= parens_start and parens_start < read)"])})
+                                   "implies(parens_start is not None, 0 <= parens_start and parens_start < read)",
+                                   "implies(parsed_filter is not None, 1 <= read)"],
+                        decreases="length - read")})
 contract("_filter:_unpack_complex_filter", requires=_PRE + ["length >= 1"], **_SCAN,
-         loops={0: dict(invariant=["len(current_view) == length", "1 <= read", "read <= length"])})
+         loops={0: dict(invariant=["len(current_view) == length", "1 <= read", "read <= length"], decreases="length - read")})
 contract("_filter:_unpack_simple_filter", requires=_PRE + ["length >= 1"], **_SCAN,
          loops={0: dict(invariant=["equals_idx == -1"]),
                 1: dict(invariant=["value_length == len(current_view) - read", "len(current_view) == length", "0 <= read", "read <= length"])})
